@@ -1,5 +1,6 @@
 import Driver.Codec
 import LopdfModel.Model.Text
+import LopdfModel.Model.TextExtract
 namespace Lopdf.Driver.C16
 open Lopdf Lopdf.Codec Lopdf.Gen
 
@@ -116,6 +117,16 @@ def handle (op : String) (args : List String) : Option String :=
         match n.toNat?.bind (fun n => parseOps n rest2) with
         | some (ops, []) => showOut (extractText fonts ops)
         | _ => "bad-op"
+      | _ => "bad-op"
+    | [] => "bad-op"
+  | "c16.extractc" =>                  -- <k> (<name> <fontdict>)* <content hex>  -> ok <ustr> | err   (Content::decode + loop)
+    some <| match args with
+    | k :: rest =>
+      match k.toNat?.bind (fun k => parseFonts k rest) with
+      | some (fonts, [h]) =>
+        match bytesOfHex h with
+        | some content => showOut (extractTextOfContent fonts content)
+        | none => "bad-op"
       | _ => "bad-op"
     | [] => "bad-op"
   | _ => none
